@@ -305,6 +305,113 @@ theorem setBoundaries_exprMixed (g b : List Int → K) (hc : s.cond sd = .exprMi
 end spelled
 end
 
+/-! ### linked values: what is imposed is decided by the memory at the time of the call -/
+
+section linked
+variable {K : Type} [Field K] [CharZero K] [DecidableEq K]
+
+/-- the faces (geometry, `normal` flag) do not depend on the linked memory -/
+theorem LAxisSpec.resolve_face_geom (s : LAxisSpec K) (st st' : Store K) (shape : List Nat)
+    (rank ax : Nat) (sd : Side) :
+    ((s.resolve st).face shape rank ax sd).1 = ((s.resolve st').face shape rank ax sd).1 := by
+  cases sd <;> rfl
+
+/-- **C02 with linked values**: the setter called while the external memory is `st` leaves an
+array in which every face satisfies its condition *with the values `st` holds at that moment*
+(composed over all axes and sides like `setBoundaries_holds`) -/
+theorem setBoundariesLinked_holds (shape : List Nat) (rank : Nat) (specs : List (LAxisSpec K))
+    (st : Store K) (h : GridOK shape (specs.map (·.resolve st))) (a : List Int → K) (ax : Nat)
+    (s : LAxisSpec K) (sd : Side) (hs : specs[ax]? = some s) (idx : List Int)
+    (hw : ((s.resolve st).face shape rank ax sd).1.writes idx = true) (hdx : s.dx ≠ 0)
+    (hreg : RegularAt ((s.resolve st).face shape rank ax sd).1 s.dx ((s.resolve st).cond sd) idx) :
+    HoldsAt ((s.resolve st).face shape rank ax sd).1 s.dx ((s.resolve st).cond sd)
+      (setBoundariesLinked shape rank specs st a) idx := by
+  have hs' : (specs.map (·.resolve st))[ax]? = some (s.resolve st) := by simp [hs]
+  exact setBoundaries_holds shape rank _ h a ax (s.resolve st) sd hs' idx hw hdx hreg
+
+/-- spelled out for a linked value condition: `(ghost + cell)/2` equals the CURRENT content of the
+linked array -/
+theorem setBoundariesLinked_value (shape : List Nat) (rank : Nat) (specs : List (LAxisSpec K))
+    (st : Store K) (h : GridOK shape (specs.map (·.resolve st))) (a : List Int → K) (ax : Nat)
+    (s : LAxisSpec K) (sd : Side) (hs : specs[ax]? = some s) (idx : List Int) (slot : Nat)
+    (hc : (match sd with | .upper => s.hi.2 | .lower => s.lo.2) = .dirichlet (.linked slot))
+    (hw : ((s.resolve st).face shape rank ax sd).1.writes idx = true) (hdx : s.dx ≠ 0) :
+    let A := setBoundariesLinked shape rank specs st a
+    let f := ((s.resolve st).face shape rank ax sd).1
+    (A idx + A (f.at idx (nearIdx f.N sd))) / 2 = st.val slot (f.valueIdx idx) := by
+  have hs' : (specs.map (·.resolve st))[ax]? = some (s.resolve st) := by simp [hs]
+  have hcond : (s.resolve st).cond sd = .dirichlet (st.val slot) := by
+    cases sd <;> simp only at hc <;>
+      simp [AxisSpec.cond, LAxisSpec.resolve, hc, LCond.resolve, ValRef.val]
+  exact setBoundaries_value shape rank _ h a ax (s.resolve st) sd hs' idx hw hdx _ hcond
+
+/-- the written entries depend only on the valid cells of the array the setter is applied to -/
+theorem setBoundaries_congr_valid (shape : List Nat) (rank : Nat) (specs : List (AxisSpec K))
+    (h : GridOK shape specs) (a b : List Int → K)
+    (hab : ∀ idx, (∀ j, j < shape.length → 1 ≤ (idx.drop rank).getD j 0 ∧
+      (idx.drop rank).getD j 0 ≤ (shape.getD j 0 : Int)) → a idx = b idx)
+    (ax : Nat) (s : AxisSpec K) (sd : Side) (hs : specs[ax]? = some s) (idx : List Int)
+    (hw : (s.face shape rank ax sd).1.writes idx = true) :
+    setBoundaries shape rank specs a idx = setBoundaries shape rank specs b idx := by
+  rw [setBoundaries_written shape rank specs h a ax s sd hs idx hw,
+    setBoundaries_written shape rank specs h b ax s sd hs idx hw]
+  have hmem : s.face shape rank ax sd ∈ boundaryFaces shape rank specs :=
+    (boundaryFaces_mem shape rank specs _).mpr ⟨ax, s, sd, hs, rfl⟩
+  have hc := boundaryFaces_compatible shape rank specs h
+  have hwf := hc.wf _ hmem
+  have hcu := hc.curv _ hmem
+  apply ghostValue_congr _ _ _ _ _ _ hw hwf (by simpa using hcu)
+  intro cc h1 h2
+  apply hab
+  intro j hj
+  obtain ⟨_, hlen⟩ := Face.writes_ghost _ idx hw
+  have hex := setGhost_writes_exactly_face _ idx hw
+  simp only [AxisSpec.face_rank, AxisSpec.face_shape, AxisSpec.face_axis] at hlen hex
+  have hrank : rank ≤ idx.length := by omega
+  have hd : ((s.face shape rank ax sd).1.at idx cc).drop rank
+      = setAt (idx.drop rank) ax cc := by
+    have := Face.drop_at (s.face shape rank ax sd).1 idx cc (by simpa using hrank)
+    simpa using this
+  rw [hd]
+  by_cases hja : ax = j
+  · subst hja
+    rw [getD_setAt_same _ _ _ (by simp; omega)]
+    have : (s.face shape rank ax sd).1.N = shape.getD ax 0 := by simp [Face.N]
+    rw [this] at h2
+    exact ⟨h1, h2⟩
+  · rw [getD_setAt_other _ _ _ _ hja]
+    exact hex.2 j hj (Ne.symm hja)
+
+/-- **no memory of earlier linked values**: imposing with memory `st₁`, overwriting the linked
+arrays (now `st₂`) and imposing again gives exactly the array that imposing with `st₂` alone gives -
+nothing of the earlier values survives in the ghost cells, nothing is frozen -/
+theorem setBoundariesLinked_current (shape : List Nat) (rank : Nat) (specs : List (LAxisSpec K))
+    (st₁ st₂ : Store K) (h₂ : GridOK shape (specs.map (·.resolve st₂))) (a : List Int → K) :
+    setBoundariesLinked shape rank specs st₂ (setBoundariesLinked shape rank specs st₁ a)
+      = setBoundariesLinked shape rank specs st₂ a := by
+  funext idx
+  unfold setBoundariesLinked
+  have hlen : specs.length = shape.length := by simpa using h₂.len
+  by_cases hex : ∃ (ax : Nat) (s : LAxisSpec K) (sd : Side), specs[ax]? = some s ∧
+      ((s.resolve st₂).face shape rank ax sd).1.writes idx = true
+  · obtain ⟨ax, s, sd, hs, hw⟩ := hex
+    have hs' : (specs.map (·.resolve st₂))[ax]? = some (s.resolve st₂) := by simp [hs]
+    apply setBoundaries_congr_valid shape rank _ h₂ _ _ _ ax (s.resolve st₂) sd hs' idx hw
+    intro i hv
+    exact setBoundaries_valid_unchanged shape rank _ (by simpa using hlen) a i hv
+  · have hnone : ∀ (st : Store K) (ax : Nat) (t : AxisSpec K) (sd : Side),
+        (specs.map (·.resolve st))[ax]? = some t → (t.face shape rank ax sd).1.writes idx = false := by
+      intro st ax t sd ht
+      simp only [List.getElem?_map, Option.map_eq_some_iff] at ht
+      obtain ⟨s, hs, rfl⟩ := ht
+      rw [LAxisSpec.resolve_face_geom s st st₂]
+      by_contra hcon
+      exact hex ⟨ax, s, sd, hs, by simpa using hcon⟩
+    rw [setBoundaries_frame shape rank _ _ idx (hnone st₂), setBoundaries_frame shape rank _ _ idx (hnone st₂),
+      setBoundaries_frame shape rank _ _ idx (hnone st₁)]
+
+end linked
+
 /-! ### non-vacuity: a 2-axis grid (3 x 2 cells) with four different conditions -/
 
 /-- x: value 3 below, Robin (γ = -2 regular for dx = 1/2, β = 1) above; y: periodic -/
@@ -336,6 +443,16 @@ example : setBoundaries [3, 2] 0 exSpecs exField [2, 0] = 22 := by decide +kerne
 example : setBoundaries [3, 2] 0 exSpecs exField [2, 3] = 21 := by decide +kernel
 -- a corner is not written
 example : setBoundaries [3, 2] 0 exSpecs exField [0, 0] = 0 := by decide +kernel
+
+
+/-- linked value: the lower x condition reads slot 0; memory first holds 3, then 5 -/
+def exLSpecs : List (LAxisSpec Rat) :=
+  [⟨1/2, (false, .dirichlet (.linked 0)), (false, .robin (.own (fun _ => -2) (fun _ => false)) (fun _ => 1))⟩,
+   ⟨1, (false, .fixed (.periodic false)), (false, .fixed (.periodic false))⟩]
+def exStore (v : Rat) : Store Rat := ⟨fun _ _ => v, fun _ _ => false⟩
+example : setBoundariesLinked [3, 2] 0 exLSpecs (exStore 3) exField [0, 1] = 6 - 11 := by decide +kernel
+example : setBoundariesLinked [3, 2] 0 exLSpecs (exStore 5)
+    (setBoundariesLinked [3, 2] 0 exLSpecs (exStore 3) exField) [0, 1] = 10 - 11 := by decide +kernel
 
 end PdeVerif.BC
 
